@@ -11,12 +11,12 @@ use core::hash::Hash;
 use core::fmt;
 use core::marker::PhantomData;
 use core::cmp::max;
+use core::mem;
+use core::cmp;
 use vstd::std_specs::cmp::{PartialEqSpecImpl, PartialEqSpec};
 use vstd::std_specs::iter::IteratorSpec;
+use vstd::iset::ISet;
 verus! {
 global size_of usize == 8;
 
-// ASSUMED (std): `#[derive(PartialEq)]` on `core::result::Result` is structural
-pub assume_specification<T: PartialEq, E: PartialEq>[ <Result<T, E> as PartialEq>::eq ](a: &Result<T, E>, b: &Result<T, E>) -> (r: bool)
-    ensures T::obeys_eq_spec() && E::obeys_eq_spec() ==> r == (match (*a, *b) { (Ok(x), Ok(y)) => x.eq_spec(&y), (Err(x), Err(y)) => x.eq_spec(&y), _ => false });
 
